@@ -71,8 +71,8 @@ def make_prog(clock, items, yields, outside=None, second=None):
             return ['send', it[1], tag[0]]
         if it[0] == 'sendm':
             return ['sendm', tag[0]]
-        if it[0] == 'sx':
-            return ['sx', it[1], fill(it[2], tag[0]), tag[0]]
+        if it[0] in ('sx', 'sxq'):
+            return [it[0], it[1], fill(it[2], tag[0]), tag[0]]
         return ['sendb', it[1], it[2], tag[0]]
     body = []
     for i, it in enumerate(items):
@@ -393,6 +393,41 @@ def programs_wide(mode):
                 m = p['actors']['main']
                 p['actors'] = {'main': m[:1], 'X': m[1:]}
                 (core_ if dt == 0.125 else extra).append(p)
+        # 4c'. a plain function task whose body takes physical time (its
+        # clock thread is in the middle of the awake call for 0.5 s) while
+        # the main thread or a second plain thread sends: outside routines
+        # the timetag is the current time (the physical instant of the
+        # send call) + L, not the scheduled time of that unrelated task
+        ba = [('bundle', [0, ['/t', 'T']]), ('bundle', [0.25, ['/t', 'T']]),
+              ('bundle', [0.2, ['/t', 'T']]), ('bundle', [1, ['/t', 'T']]),
+              ('bundle', [None, ['/t', 'T']]),
+              ('bundle', [0, ['/t', 'T'], [0.25, ['/u', 'T']]]),
+              ('bundle', [0.25, ['/t', 'T'],
+                          [0.25, ['/u', 'T'], [0.5, ['/v', 'T']]]]),
+              ('bundle', [None, ['/t', 'T'], [0, ['/u', 'T']]]),
+              ('bundle', [0, ['/t', 'T', [0.25, ['/u', 'T']]]]),
+              ('msg', [None, ['/t', 'T', [0, ['/u', 'T']]]]),
+              ('msg', [None, ['/t', 'T', [0.25, ['/u', 'T']]]]),
+              ('clumped', [0, ['/t', 'T']]),
+              ('clumped', [0.25, ['/t', 'T'], [0.5, ['/u', 'T']]]),
+              ('bind', [0, ['/t', 'T']]),
+              ('bind', [0.25, ['/t', 'T'], ['/u', 'T']])]
+        for c in ('s', 't2', 'a'):
+            for via, b in ba:
+                for who in ('main', 'X'):
+                    p = make_prog('s', [], [])
+                    p['routines'] = {}
+                    p['clocks'][c] = c05.CLOCKSPEC[c]
+                    # woken at 0.25 s, busy until 0.75 s
+                    p['funcs'] = {'f0': {'returns': [None], 'sends': {
+                        '0': [['block', 0.5]]}}}
+                    m = [['sched', c, 0.25 * c05.TEMPO[c], 'f0']]
+                    snd = [['sleep', 0.5], ['sxq', via, fill(b, 81), 81]]
+                    p['actors'] = {'main': m + snd} if who == 'main' \
+                        else {'main': m, 'X': snd}
+                    p['busy_task'] = [0.25, 0.75]
+                    p['horizon'] = 3.0
+                    core_.append(p)
         # 4d. the other entry points from a routine stepped by hand and from
         # a clock driven one whose body takes physical time before it sends
         hs = [('sx', 'msg', [None, ['/t', 'T', [0, ['/u', 'T']]]]),
@@ -488,18 +523,20 @@ def expected_sends(prog, mode):
         for st in ops:
             if st[0] == 'sleep':
                 t += st[1] if mode == 'rt' else 0.0
-            elif st[0] in ('send', 'sendm', 'sendb', 'sx'):
+            elif st[0] in ('send', 'sendm', 'sendb', 'sx', 'sxq'):
                 sends.append(_send(st, actor, t, False))
     # plain functions scheduled on a clock are "outside routines"
     ft = func_times(prog)
     for fid, spec in prog.get('funcs', {}).items():
         for k, t in enumerate(ft.get(fid, [])):
             for st in spec.get('sends', {}).get(str(k), []):
-                sends.append(dict(_send(st, fid, t, False), functask=True))
+                if st[0] in SENDOPS:
+                    sends.append(dict(_send(st, fid, t, False),
+                                      functask=True))
     return sends
 
 
-SENDOPS = ('send', 'sendm', 'sendb', 'sendbo', 'sx')
+SENDOPS = ('send', 'sendm', 'sendb', 'sendbo', 'sx', 'sxq')
 
 
 def inner_routines(prog):
@@ -585,12 +622,12 @@ def sx_refusal(b):
 
 def _send(st, who, t, in_routine):
     d = {'who': who, 't': t, 'in_routine': in_routine,
-         'kind': 'sendb' if st[0] == 'sendbo' else st[0]}
+         'kind': {'sendbo': 'sendb', 'sxq': 'sx'}.get(st[0], st[0])}
     if st[0] == 'send':
         d.update(L=st[1], tag=st[2], refused=False)
     elif st[0] == 'sendm':
         d.update(L=None, tag=st[1], refused=False)
-    elif st[0] == 'sx':
+    elif st[0] in ('sx', 'sxq'):
         via, b = st[1], st[2]
         d.update(via=via, b=b, tag=st[3], L=b[0])
         # messages carry no time of their own; lists inside messages
@@ -1098,12 +1135,15 @@ def _run_class():
             return g
 
         def do(self, st, who, clock=None):
-            if st[0] != 'sx':
+            if st[0] not in ('sx', 'sxq'):
                 return super().do(st, who, clock)
             from sc3.base.main import main
             via, tag = st[1], st[3]
+            # 'sxq': no read of the library's time before the call (outside
+            # routines such a read waits for a running awake call to end,
+            # the send would then no longer happen DURING that call)
             self.ev('send', who, 'sx', tag, self.now(),
-                    main.current_tt._seconds)
+                    main.current_tt._seconds if st[0] == 'sx' else None)
             try:
                 data = copy.deepcopy(st[2])    # fresh lists for every send
                 addr = self._addr()
@@ -1294,7 +1334,11 @@ def main(ctx):
         'from a routine at a logical time > 0 on every clock, from outside '
         'and from a function task; function tasks (outside routines at a '
         'time > 0) alone and tying with a routine; inner routines stepped '
-        'with next(); sends from a second plain thread; routines stepped by '
+        'with next(); sends from a second plain thread; sends from the main '
+        'or a second thread through every entry point WHILE a plain '
+        'function task on SystemClock/TempoClock/AppClock is in the '
+        'middle of its awake call (body takes 0.5 s): stamped from the '
+        'physical instant of the send call; routines stepped by '
         'hand or loaded before sending through every entry point; AppClock '
         'routines in RT (logical time as observed by the routine); NRT tail '
         'times {0,0.25,2,0.1} (quick: a seed-selected 1/4 slice of the RT '
